@@ -307,7 +307,26 @@ func (t *Table) LeftOptionalJoin(t2 *Table) error {
 	}
 	if disjointBindings(t.mbs, t2.mbs) {
 		// The tables has nothing in commnon. Hence, we are going to treat it
-		// as a regular cross product.
+		// as a regular cross product, unless the optional side is empty: a
+		// left join never drops the rows of the left table, it extends them
+		// with unbound cells for the bindings of the right one.
+		t2.mu.RLock()
+		empty := len(t2.Data) == 0
+		t2.mu.RUnlock()
+		if empty {
+			t.mu.Lock()
+			defer t.mu.Unlock()
+			ubs := unionBindings(t.mbs, t2.mbs)
+			for i, r := range t.Data {
+				t.Data[i] = extendRow(r, ubs)
+			}
+			t.mbs = ubs
+			t.AvailableBindings = nil
+			for k := range ubs {
+				t.AvailableBindings = append(t.AvailableBindings, k)
+			}
+			return nil
+		}
 		return t.DotProduct(t2)
 	}
 	// There are some overlapping bindings. That requires to sort both tables
